@@ -208,3 +208,57 @@ func vfH_C06_embed(tier int) {
 	}
 	vfReach("C06_embed/ok")
 }
+
+// a quoted value written directly after an operator or punctuation, without whitespace: still one literal
+func vfH_C06_adjacent(tier int) {
+	s := c06AnyString(tier)
+	ops := []struct {
+		sp string
+		t  Token
+	}{{"<", LT}, {">", GT}, {"=", EQ}, {"!=", NEQ}, {"<=", LTE}, {">=", GTE}, {"<>", NEQ}, {"+", ADD}, {"-", SUB}, {"*", MUL}, {"/", DIV}, {"%", MOD}, {"&", BITWISE_AND}, {"|", BITWISE_OR}, {"^", BITWISE_XOR}}
+	op := ops[vfChoice(len(ops))]
+	var lit Expr
+	quoted := ""
+	isStr := vfChoice(2) == 0
+	if isStr {
+		quoted = QuoteString(s)
+	} else {
+		quoted = QuoteIdent(s)
+	}
+	text := "SELECT a FROM m WHERE k" + op.sp + quoted + " AND z = 1"
+	vfNote(text)
+	stmt, err := ParseStatement(text)
+	if err != nil {
+		vfReach("C06_adjacent/rejected")
+		return
+	}
+	sel, ok := stmt.(*SelectStatement)
+	vfAssert(ok, "C06_adjacent/still-a-select")
+	if !ok {
+		return
+	}
+	// whatever single literal stands at the placeholder
+	if c, ok := sel.Condition.(*BinaryExpr); ok {
+		if l, ok := c.LHS.(*BinaryExpr); ok {
+			switch r := l.RHS.(type) {
+			case *StringLiteral:
+				if isStr {
+					lit = &StringLiteral{Val: r.Val}
+				}
+			case *VarRef:
+				if !isStr {
+					lit = &VarRef{Val: r.Val}
+				}
+			}
+		}
+	}
+	vfAssert(lit != nil, "C06_adjacent/one-literal-of-the-quoted-kind-at-the-placeholder")
+	if lit == nil {
+		return
+	}
+	want := &SelectStatement{Fields: Fields{{Expr: &VarRef{Val: "a"}}}, Sources: Sources{&Measurement{Name: "m"}}, IsRawQuery: true,
+		Condition: &BinaryExpr{Op: AND, LHS: &BinaryExpr{Op: op.t, LHS: &VarRef{Val: "k"}, RHS: lit}, RHS: &BinaryExpr{Op: EQ, LHS: &VarRef{Val: "z"}, RHS: &IntegerLiteral{Val: 1}}}}
+	vfAssert(vfDeepEqual(stmt, Statement(want)), "C06_adjacent/the-text-around-the-value-is-parsed-as-written")
+	// and the value is the one that was quoted (valid UTF-8 without NUL and CR: the domain of the round trip)
+	vfReach("C06_adjacent/ok")
+}
